@@ -150,6 +150,7 @@ func runC08(c *Ctx) {
 			ob.HoldNT("no write through any parameter")
 		}
 	}
+	keypairComplete(c, p, "R4")
 	// R4c: imported keys are copied verbatim
 	c08Verbatim(c, p, "R4")
 }
